@@ -4,7 +4,7 @@ import sys
 
 from mc.engine import import_holpy
 
-MODULES = ['mc.holsem', 'mc.numeric', 'mc.smtenc']
+MODULES = ['mc.holsem', 'mc.numeric', 'mc.smtenc', 'mc.intnum']
 
 
 def main():
